@@ -109,6 +109,8 @@ def run_static(out, tier, seed):
 
 
 def run(out, tier, seed):
+    from .. import envcheck
+    envcheck.run(out, tier, seed)          # Envelope.tla: the activation envelope as a state machine, every driver of a generator
     run_static(out, tier, seed)
     P.run_world(out, tier, seed, gen_case, PLAN, salt=17,
                 rule="random call trees whose activations end by return, falling off the end, raising (propagating through "
